@@ -597,6 +597,11 @@ def main():
         return 2
     spec = json.load(open(spec_path))
     spec["property"] = prop
+    spec.setdefault("rewrites", [])
+    for inc in spec.get("include", []):
+        part = json.load(open(os.path.join(VERIF, "harness", prop, inc)))
+        spec["rewrites"] = part.get("rewrites", []) + spec["rewrites"]
+        spec["inject"] = spec["inject"] + part.get("inject", [])
 
     if a.replay:
         workdir = a.workdir or os.path.join(SCRATCH_ROOT, f"replay-{prop}-{os.getpid()}")
@@ -654,7 +659,10 @@ def run_property(prop, spec, sel, harnesses, workdir, a, seed, t0):
     out_json = os.path.join(workdir, "kani.json")
     logf = os.path.join(workdir, "kani.log")
     log(f"{prop}: {len(sel)} harnesses, tier={a.tier}, jobs={jobs}, per-harness timeout={tmax}s, scratch={workdir}")
-    rc = run_kani(repo, target, [h["full"] for h in sel], jobs, tmax, out_json, logf)
+    extra = []
+    if spec.get("cbmc_args"):
+        extra = ["--cbmc-args"] + list(spec["cbmc_args"])
+    rc = run_kani(repo, target, [h["full"] for h in sel], jobs, tmax, out_json, logf, extra)
     d = load_results(out_json)
     logtxt = open(logf).read() if os.path.exists(logf) else ""
     if d is None:
@@ -716,7 +724,8 @@ def run_property(prop, spec, sel, harnesses, workdir, a, seed, t0):
         log(f"{prop}: harness {h['name']} FAILED: {c.get('description')} @ {c.get('location')}; replaying")
         rep, src, detail = concrete_playback(repo, target, h, workdir)
         if rep:
-            rdir = os.path.join(VERIF, "replays", prop)
+            # replays of runs against another tree (seeded changes, VERIF_REPO=...) are kept out of /verif/replays
+            rdir = os.path.join(VERIF, "replays", prop) if REPO == "/repo" else os.path.join(SCRATCH_ROOT, "replays-other-tree", prop)
             os.makedirs(rdir, exist_ok=True)
             rp = os.path.join(rdir, h["name"] + ".rs")
             with open(rp, "w") as fh:
